@@ -143,6 +143,11 @@ def conv_nearest(m, ref, args, t, sp):
         arg = v[2]
         tpos = m.truth(("fcmp", "Ge", arg, F.ZERO), sp, "signum")
         return 1 if tpos else -1
+    cache = getattr(m, "f2i_cache", None)
+    if cache is None:
+        cache = m.f2i_cache = {}
+    if (dst, v) in cache:
+        return cache[(dst, v)]
     b = m.float_int_bounds(v) if hasattr(m, "float_int_bounds") else None
     blo, bhi = b if b else (lo, hi)
     # out-of-range is a potential panic
@@ -151,6 +156,7 @@ def conv_nearest(m, ref, args, t, sp):
     s = m.ienv.new_sym("nearest", max(lo, blo), min(hi, bhi))
     m.f2i_links = getattr(m, "f2i_links", {})
     m.f2i_links[s.key()] = v
+    cache[(dst, v)] = s
     return s
 
 
@@ -380,6 +386,10 @@ def into_iter(m, ref, args, t, sp):
         c = Cell(v)
         return VModel("array_iter", cell=c, pos=0)
     if isinstance(v, VOpaque):
+        seen = getattr(m, "iter_seen", None)
+        if seen is None:
+            seen = m.iter_seen = set()
+        seen.add(str(v.tag))
         return VModel("opaque_iter", tag=str(v.tag), count=0)
     raise Unsupported("into_iter of %r" % (v,))
 
@@ -606,11 +616,20 @@ def model_next(m, it, sp, item_ty=None):
             st["done"] = True
         return model_next(m, st["inner"], sp, item_ty)
     if k == "opaque_iter":
+        seen = getattr(m, "iter_seen", None)
+        if seen is None:
+            seen = m.iter_seen = set()
+        seen.add(st["tag"])
+        ended = getattr(m, "iter_ended", None)
+        if ended is None:
+            ended = m.iter_ended = {}
         if st["count"] >= m.cfg.max_items:
+            ended[st["tag"]] = True
             return None
         c = m.choose(2, ("iter-next", st["tag"], st["count"], sp))
         if c == 1:
             st["count"] = m.cfg.max_items  # exhausted from now on (fused view)
+            ended[st["tag"]] = True
             return None
         idx = st["count"]
         st["count"] += 1
@@ -691,6 +710,13 @@ def pull(m, itv, sp):
         if x is None:
             return
         yield x
+
+
+def iter_size_hint(m, ref, args, t, sp):
+    """(lower, Option<upper>): the lower bound of an abstract iterator says nothing about
+    emptiness (0 is always a legal lower bound)"""
+    lo = m.ienv.new_sym("size_hint_lo", 0, 2**40)
+    return VTuple([lo, VOpaque("Option<usize>", m.new_name("size_hint_hi"))])
 
 
 def iter_sum(m, ref, args, t, sp):
@@ -802,8 +828,13 @@ def sort_floats(m, ref, args, t, sp):
         for (c, p), v in zip(els, vals):
             m.write_loc(c, p, v, sp)
         return UNIT
-    tag = m.new_name("sorted")
     m.sorted_sets = getattr(m, "sorted_sets", {})
+    tag = None
+    for t0, s0 in m.sorted_sets.items():
+        if s0 == list(src):
+            tag = t0
+    if tag is None:
+        tag = "sorted%d" % (len(m.sorted_sets) + 1)
     m.sorted_sets[tag] = list(src)
     outs = [("fn", "sorted", tag, i) + tuple(src) for i in range(n)]
     nn = [m.order.nan_status(x) for x in src]
@@ -995,6 +1026,7 @@ BY_TRAIT = {
     ("core::iter::traits::iterator::Iterator", "take"): iter_take,
     ("core::iter::traits::iterator::Iterator", "skip"): iter_skip,
     ("core::iter::traits::iterator::Iterator", "sum"): iter_sum,
+    ("core::iter::traits::iterator::Iterator", "size_hint"): iter_size_hint,
     ("core::iter::traits::iterator::Iterator", "for_each"): iter_for_each,
     ("core::iter::traits::iterator::Iterator", "fold"): iter_fold,
     ("core::iter::traits::iterator::Iterator", "count"): iter_count,
@@ -1021,3 +1053,45 @@ def lookup(ref):
     if h is not None:
         USED.add(ref["fn"])
     return h
+
+
+# float_ord::FloatOrd is a total order on f64 bit patterns: NaNs sort below -inf or above +inf
+# depending on their sign bit.  The abstract domain has no NaN sign, so a NaN operand makes the
+# outcome of min/max nondeterministic (both are explored).
+def _floatord_pick(m, a, b, want_min, sp):
+    fa, fb = a.fields[0], b.fields[0]
+    if not (is_float(fa) and is_float(fb)):
+        return VOpaque("?", m.new_name("floatord"))
+    na = m.truth(("isnan", fa), sp, "floatord")
+    nb = m.truth(("isnan", fb), sp, "floatord")
+    if na or nb:
+        c = m.choose(2, ("floatord-nan-sign", sp))
+        return a if c == 0 else b
+    le = m.truth(("fcmp", "Le", fa, fb), sp, "floatord")
+    if want_min:
+        return a if le else b
+    return b if le else a
+
+
+_cmp_min_int = cmp_min
+_cmp_max_int = cmp_max
+
+
+def cmp_min2(m, ref, args, t, sp):
+    a, b = args
+    if isinstance(a, VStruct) and isinstance(b, VStruct) and a.path.endswith("FloatOrd"):
+        return _floatord_pick(m, a, b, True, sp)
+    return _cmp_min_int(m, ref, args, t, sp)
+
+
+def cmp_max2(m, ref, args, t, sp):
+    a, b = args
+    if isinstance(a, VStruct) and isinstance(b, VStruct) and a.path.endswith("FloatOrd"):
+        return _floatord_pick(m, a, b, False, sp)
+    return _cmp_max_int(m, ref, args, t, sp)
+
+
+BY_NAME["core::cmp::min"] = cmp_min2
+BY_NAME["core::cmp::max"] = cmp_max2
+BY_TRAIT[("core::cmp::Ord", "min")] = cmp_min2
+BY_TRAIT[("core::cmp::Ord", "max")] = cmp_max2
